@@ -25,6 +25,7 @@
 //    setting completed status should not typically be racy.
 
 #include "notifier_common.h"
+#include "verif_hooks.h"
 
 namespace dispenso {
 namespace detail {
@@ -51,6 +52,7 @@ class CompletionEventImpl {
   void wait(int completedStatus) const {
     int current;
     while ((current = status_.load(std::memory_order_acquire)) != completedStatus) {
+      DISPENSO_VERIF_POINT(::dispenso::verif::kEventBeforeFutexWait);
       futex(&ftx_, FUTEX_WAIT_PRIVATE, current, nullptr, nullptr, 0);
     }
   }
@@ -74,6 +76,7 @@ class CompletionEventImpl {
     // loop in the case of spurious wake.
     int current;
     while ((current = status_.load(std::memory_order_acquire)) != completedStatus) {
+      DISPENSO_VERIF_POINT(::dispenso::verif::kEventBeforeFutexWait);
       if (futex(&ftx_, FUTEX_WAIT_PRIVATE, current, &ts, nullptr, 0) && errno == ETIMEDOUT) {
         // Intentionally not re-checking status: returning false on timeout is consistent with
         // std::condition_variable::wait_for semantics. The benign race where notify arrives
